@@ -492,6 +492,7 @@ def _g_check(top, bare, model, op, modified):
     kind = op[0]
     obs = _g_obs(bare)
     out = []
+    wrong = []   # (d or None, signature, message) of groups whose extents differ from their members' bbox
 
     def depth_of(path):
         if tuple(modified[:len(path)]) == tuple(path):
@@ -518,18 +519,24 @@ def _g_check(top, bare, model, op, modified):
                 exp = _bbox(boxes)
                 d = depth_of(path)
                 if o["box"] != exp:
-                    out.append(("C17|group-extents|member-kind=%s|depth=%s" % (kind, d),
+                    wrong.append((d, "C17|group-extents|member-kind=%s|depth=%s" % (kind, d),
                                 "after adding %s at %r to group %r: group %r has off/ext %r, bounding box of its "
                                 "%d members is %r" % (kind, tuple(op[1:4]), tuple(op[4]), path, o["box"],
                                                       len(boxes), exp)))
                 elif o["chbox"] != exp:
-                    out.append(("C17|group-child-extents|member-kind=%s|depth=%s" % (kind, d),
+                    wrong.append((d, "C17|group-child-extents|member-kind=%s|depth=%s" % (kind, d),
                                 "after adding %s to group %r: group %r has chOff/chExt %r, bounding box of its "
                                 "members is %r" % (kind, tuple(op[4]), path, o["chbox"], exp)))
         for i, k in enumerate(kids):
             walk(k, m["children"][i], path + (i,))
 
     walk(obs, model, ())
+    if wrong:
+        # one report per step: the LOWEST wrong group on the path modified-group -> top (smallest d); a
+        # wrong group off that path is reported only if every group on the path is right
+        on_path = sorted((int(w[0]), w[1], w[2]) for w in wrong if w[0] != "off-path")
+        pick = on_path[0] if on_path else sorted(wrong, key=lambda w: w[1])[0]
+        out.append((pick[1], pick[2]))
 
     # API readings of the groups on the path from the modified group up to the top
     if not out:
